@@ -14,6 +14,7 @@ package types
 // events.go — the tx_receipt event is a pure rendering of the receipt object it is given (C13); it fails only when the
 // receipt cannot be marshalled, and never touches state.
 //@ func GetSdkEventForReceipt(receipt *ethtypes.Receipt, effectiveGasPrice *big.Int, vmErr error, cometTxHash *cmtbytes.HexBytes) (ev sdk.Event, err error)
+//@   deterministic[C01.no_node_local_source]
 //@   requires receipt != nil && effectiveGasPrice != nil && receipt.BlockNumber != nil
 //@   requires forall i int :: (0 <= i && i < len(receipt.Logs)) ==> receipt.Logs[i] != nil
 //@   modifies nothing
@@ -47,6 +48,7 @@ package types
 // utils.go — BinSearch: bisection between lo (known or assumed to fail) and hi; the result stays in (lo, hi]; whatever
 // happens to the state is what the calls of `executable` do.
 //@ func BinSearch(lo, hi uint64, executable func(uint64) (bool, *MsgEthereumTxResponse, error)) (res uint64, err error)
+//@   deterministic[C01.no_node_local_source]
 //@   requires hi < pow2(63) && lo < pow2(63)
 //@   modifies effects(executable)
 //@   ensures[C08.estimate_in_range] err == nil ==> (res <= hi && (lo < hi ==> lo < res) && (lo >= hi ==> res == hi))
@@ -66,6 +68,7 @@ package types
 //@   ensures len(result) == 9 && bytes(result) == trReceiptKeyB(txIdx) && fresh(base(result))
 //@   panics never
 //@ func BlockHashKey(height uint64) []byte
+//@   deterministic[C01.no_node_local_source]
 //@   modifies nothing
 //@   ensures[C20.block_hash_key] len(result) == 9
 //@   panics[C20.block_hash_key_never_panics] never
